@@ -51,6 +51,19 @@ pub fn built_items(cfg: &BuildCfg, dir: &Path, keys: &[Key], rng: &mut Rng, with
             Ok(Err(e)) => return Err(CorpusErr::Err("sign".into(), e.to_string())),
             Err(pn) => return Err(CorpusErr::Panic(format!("sign:{}", pn.site()), pn.message)),
         }
+        // a signing attempt that FAILS must leave a package that is as valid as before
+        {
+            let mut q = p.clone();
+            match guard(|| q.sign_with_timestamp(FailingSigner(rng.bool()), ts)) {
+                Ok(Err(_)) => emit(&mut out, format!("built+sign({})+failed-sign", k1.name), Origin::Builder, Some(cfg), &q)?,
+                Ok(Ok(())) => return Err(CorpusErr::Err("sign".into(), "a signer that reports an error signs successfully".into())),
+                Err(pn) => return Err(CorpusErr::Panic(format!("sign:{}", pn.site()), pn.message)),
+            }
+            let mut u = pkg.clone();
+            if let Ok(Err(_)) = guard(|| u.sign_with_timestamp(FailingSigner(false), ts)) {
+                emit(&mut out, "built+failed-sign".into(), Origin::Builder, Some(cfg), &u)?;
+            }
+        }
         match guard(|| p.clear_signatures()) {
             Ok(Ok(())) => emit(&mut out, "built+sign+clear".into(), Origin::Builder, Some(cfg), &p)?,
             Ok(Err(e)) => return Err(CorpusErr::Err("clear".into(), e.to_string())),
@@ -109,4 +122,23 @@ pub fn asset_items(repo: &Path, keys: &[Key]) -> Vec<Result<Item, String>> {
         out.extend(v.into_iter().map(Ok));
     }
     out
+}
+
+
+/// A signer that always reports an error (after reading the data or without reading it).
+#[derive(Debug)]
+pub struct FailingSigner(pub bool);
+
+impl rpm::signature::Signing for FailingSigner {
+    type Signature = Vec<u8>;
+    fn sign(&self, mut data: impl std::io::Read, _t: rpm::Timestamp) -> Result<Vec<u8>, rpm::Error> {
+        if self.0 {
+            let mut sink = Vec::new();
+            let _ = data.read_to_end(&mut sink);
+        }
+        Err(rpm::Error::from(std::io::Error::other("scripted signer failure")))
+    }
+    fn algorithm(&self) -> rpm::signature::AlgorithmType {
+        rpm::signature::AlgorithmType::RSA
+    }
 }
